@@ -34,6 +34,12 @@ type Solver struct {
 	SolveTime time.Duration
 	timeoutMs int
 	script    *strings.Builder // full transcript for cross-checking (optional)
+	lines     [][]string       // commands per open scope (for one-shot fallback)
+	Fallback  bool
+	FallbackMs int
+	OneShots  int
+	oneShotVals map[string]string
+	Inputs    func() []*Term
 }
 
 type scope struct {
@@ -77,6 +83,7 @@ func NewSolver(kind string, timeoutMs int, logPath string) (*Solver, error) {
 	}
 	s.send("(set-logic ALL)")
 	s.scopes = []scope{{}}
+	s.lines = [][]string{nil}
 	return s, nil
 }
 
@@ -102,9 +109,26 @@ func (s *Solver) send(line string) {
 	}
 	io.WriteString(s.in, line)
 	io.WriteString(s.in, "\n")
+	if s.Fallback && len(s.lines) > 0 {
+		switch {
+		case line == "(push 1)":
+			s.lines = append(s.lines, nil)
+		case line == "(pop 1)":
+			if len(s.lines) > 1 {
+				s.lines = s.lines[:len(s.lines)-1]
+			}
+		case line == "(check-sat)" || strings.HasPrefix(line, "(get-value") || strings.HasPrefix(line, "(set-"):
+		default:
+			s.lines[len(s.lines)-1] = append(s.lines[len(s.lines)-1], line)
+		}
+	}
 }
 
 func (s *Solver) Push() {
+	if len(s.scopes) == 1 && os.Getenv("GOSYM_DUMP_UNKNOWN") != "" {
+		s.script = &strings.Builder{}
+		s.script.WriteString("(set-option :produce-models true)\n(set-logic ALL)\n")
+	}
 	s.send("(push 1)")
 	s.scopes = append(s.scopes, scope{})
 }
@@ -188,6 +212,8 @@ func (s *Solver) Assert(t *Term) {
 	s.send("(assert " + s.emit(t) + ")")
 }
 
+var dumpN int
+
 type Result int
 
 const (
@@ -208,6 +234,18 @@ func (s *Solver) readLine() string {
 }
 
 func (s *Solver) Check() Result {
+	s.oneShotVals = nil
+	r := s.checkInc()
+	if r == RUnknown && s.Fallback {
+		if r2 := s.oneShot(); r2 != RUnknown {
+			s.Unknown--
+			return r2
+		}
+	}
+	return r
+}
+
+func (s *Solver) checkInc() Result {
 	start := time.Now()
 	s.send("(check-sat)")
 	s.Queries++
@@ -227,6 +265,10 @@ func (s *Solver) Check() Result {
 		case line == "unknown" || line == "timeout":
 			r = RUnknown
 			s.Unknown++
+			if s.script != nil {
+				dumpN++
+				os.WriteFile(fmt.Sprintf("%s/unknown_%d_%d.smt2", os.Getenv("GOSYM_DUMP_UNKNOWN"), os.Getpid(), dumpN), []byte(s.script.String()), 0o644)
+			}
 		case strings.HasPrefix(line, "(error"):
 			fmt.Fprintln(os.Stderr, "SOLVER ERROR:", line)
 			r = RError
@@ -263,6 +305,16 @@ func (s *Solver) CheckWith(t *Term) Result {
 func (s *Solver) Values(vars []*Term) map[string]*Term {
 	res := map[string]*Term{}
 	if len(vars) == 0 {
+		return res
+	}
+	if s.oneShotVals != nil {
+		for _, v := range vars {
+			if txt, ok := s.oneShotVals[v.Name]; ok {
+				if t := parseConst(txt, v.S); t != nil {
+					res[v.Name] = t
+				}
+			}
+		}
 		return res
 	}
 	sort.Slice(vars, func(i, j int) bool { return vars[i].Name < vars[j].Name })
@@ -421,4 +473,93 @@ func parseConst(v string, srt Sort) *Term {
 		}
 	}
 	return nil
+}
+
+// oneShot re-decides the current query in a fresh non-incremental solver process (z3's
+// incremental core skips the preprocessing that makes many wide bit-vector/UF queries
+// trivial). The flattened script is everything asserted in the open scopes.
+func (s *Solver) oneShot() Result {
+	start := time.Now()
+	s.OneShots++
+	var sb strings.Builder
+	sb.WriteString("(set-option :produce-models true)\n(set-logic ALL)\n")
+	for _, sc := range s.lines {
+		for _, l := range sc {
+			sb.WriteString(l)
+			sb.WriteByte('\n')
+		}
+	}
+	sb.WriteString("(check-sat)\n")
+	var names []string
+	if s.Inputs != nil {
+		for _, v := range s.Inputs() {
+			if _, ok := s.declared[v.Name]; ok {
+				names = append(names, v.Name)
+			}
+		}
+	}
+	bin := s.kind
+	ms := s.FallbackMs
+	if ms <= 0 {
+		ms = 60000
+	}
+	var args []string
+	switch bin {
+	case "cvc5":
+		args = []string{"--lang=smt2", "--produce-models", fmt.Sprintf("--tlimit=%d", ms)}
+	default:
+		args = []string{"-in", "-smt2", fmt.Sprintf("-t:%d", ms)}
+	}
+	cmd := exec.Command(bin, args...)
+	stdin, _ := cmd.StdinPipe()
+	stdout, _ := cmd.StdoutPipe()
+	if err := cmd.Start(); err != nil {
+		return RUnknown
+	}
+	io.WriteString(stdin, sb.String())
+	rd := bufio.NewReaderSize(stdout, 1<<20)
+	res := RUnknown
+	for {
+		line, err := rd.ReadString('\n')
+		l := strings.TrimSpace(line)
+		if l == "sat" {
+			res = RSat
+			break
+		}
+		if l == "unsat" {
+			res = RUnsat
+			break
+		}
+		if l == "unknown" || l == "timeout" || strings.HasPrefix(l, "(error") || err != nil {
+			break
+		}
+	}
+	if res == RSat && len(names) > 0 {
+		s.oneShotVals = map[string]string{}
+		for i := 0; i < len(names); i += 200 {
+			j := i + 200
+			if j > len(names) {
+				j = len(names)
+			}
+			io.WriteString(stdin, "(get-value ("+strings.Join(names[i:j], " ")+"))\n")
+			old := s.out
+			s.out = rd
+			text := s.readSexp()
+			s.out = old
+			for k, v := range parseGetValue(text) {
+				s.oneShotVals[k] = v
+			}
+		}
+	}
+	stdin.Close()
+	cmd.Process.Kill()
+	cmd.Wait()
+	s.SolveTime += time.Since(start)
+	switch res {
+	case RSat:
+		s.Sat++
+	case RUnsat:
+		s.Unsat++
+	}
+	return res
 }
